@@ -299,6 +299,9 @@ func c18ReqVariant(r *vRand, pdh string) (string, string) {
 	}
 }
 
+// statuses of failing answers: every class, not only the usual 4xx/5xx
+var c18Codes = []int{500, 502, 503, 401, 403, 422, 500, 502, 503, 400, 410, 429, 499, 504, 599, 100, 101, 201, 202, 203, 204, 206, 299, 300, 301, 302, 304, 307, 399}
+
 func c18Code(err error) int {
 	if err == nil {
 		return 0
@@ -402,7 +405,7 @@ func TestVerifC18(t *testing.T) {
 				b := &c18Backend{id: id}
 				switch r.Intn(5) {
 				case 0:
-					b.kind, b.code = c18Err, []int{404, 500, 503, 403}[r.Intn(4)]
+					b.kind, b.code = c18Err, append([]int{404, 404, 404}, c18Codes...)[r.Intn(3+len(c18Codes))]
 				case 1:
 					b.kind = c18Col
 					b.manifest, _ = c18Tamper(r, c18Render(c18Gen(r), true))
@@ -479,7 +482,10 @@ func TestVerifC18(t *testing.T) {
 			case x < 82:
 				b.kind, b.code, b.label = c18Err, 404, "404"
 			case x < 94:
-				b.kind, b.code, b.label = c18Err, []int{500, 502, 503, 401, 403, 422}[r.Intn(6)], "5xx"
+				// an error of any status class: what an rpc backend reports for a response that is not 200
+				// (a TransactionError carries the remote's status, whatever it is)
+				b.kind, b.code = c18Err, c18Codes[r.Intn(len(c18Codes))]
+				b.label = fmt.Sprintf("%dxx", b.code/100)
 			default:
 				b.kind, b.label = c18Hang, "hang"
 			}
@@ -493,7 +499,8 @@ func TestVerifC18(t *testing.T) {
 		case x < 17:
 			setKind(bl, 30+r.Intn(32))
 		default:
-			bl.kind, bl.code, bl.label = c18Err, []int{500, 502, 503, 401, 403}[r.Intn(5)], "5xx"
+			bl.kind, bl.code = c18Err, c18Codes[r.Intn(len(c18Codes))]
+			bl.label = fmt.Sprintf("%dxx", bl.code/100)
 		}
 		tags = append(tags, "local:"+bl.label)
 		arrived := make(chan string, 8)
